@@ -79,6 +79,7 @@ func (e *Eval) instr(fr *Frame, in ssa.Instruction, st *State, cur string) (stri
 			}
 			r := c.Define(fr.prefix+x.Name(), c.Sort(t), e.load(st, v, t))
 			e.noteVal(t, r)
+			e.guardCheck(fr, st, v, cur, false)
 			if v.A != nil && v.A.Kind == "field" && len(v.A.Path) == 0 && strings.HasSuffix(v.A.Comp, ".fidRef.file") {
 				e.prov[r] = v.A.Base
 			}
@@ -408,7 +409,52 @@ func (e *Eval) ghostEvent(st *State, kind, obj string) {
 }
 
 // hooks used by ghost instrumentation (filled in by later layers)
-func (e *Eval) afterStore(fr *Frame, st *State, p Val, t types.Type, cur string, in ssa.Instruction) {}
+func (e *Eval) afterStore(fr *Frame, st *State, p Val, t types.Type, cur string, in ssa.Instruction) {
+	e.guardCheck(fr, st, p, cur, true)
+}
+
+// guardCheck: guarded-by classification of shared fields (C07/C16). Accesses
+// to objects allocated by the current invocation are exempt (not yet shared).
+func (e *Eval) guardCheck(fr *Frame, st *State, p Val, cur string, write bool) {
+	if p.A == nil || p.A.Kind != "field" || e.root == nil || e.root.fn == nil {
+		return
+	}
+	for _, g := range e.p.cs.Guards {
+		pkg := e.p.pkgs[g.Pkg]
+		if pkg == nil {
+			continue
+		}
+		o := pkg.Pkg.Scope().Lookup(g.Type)
+		if o == nil {
+			continue
+		}
+		idx := fieldIndex(o.Type(), g.Field)
+		if idx < 0 || fieldComp(o.Type(), idx) != p.A.Comp {
+			continue
+		}
+		for _, a := range e.allocs {
+			if a == p.A.Base {
+				return
+			}
+		}
+		cl := g.Read
+		kind := "read"
+		if write {
+			cl, kind = g.Write, "write"
+		}
+		if cl == nil {
+			continue
+		}
+		ex, err := cl.Parse()
+		if err != nil {
+			e.c.Unsupported("%v", err)
+			continue
+		}
+		env := e.newEnv(pkg, st, e.entry)
+		env.vars["r"] = TV{T: p.A.Base, Ty: types.NewPointer(o.Type())}
+		e.oblige(fmt.Sprintf("guard@%s/%s", e.site(g.Type+"."+g.Field+"#"+kind), kind), "guard", cl.Props, cur, env.evalBool(ex), g.Type+"."+g.Field+" "+kind+": "+cl.Text, cl.Where)
+	}
+}
 func (e *Eval) afterMapUpdate(fr *Frame, st *State, u *types.Map, m string, cur string, in ssa.Instruction) {}
 func (e *Eval) allocOb(fr *Frame, in ssa.Instruction, cur, n string, elem types.Type)              {}
 
